@@ -1754,6 +1754,135 @@ fn oracle_scoping(rng: &mut Rng, out: &mut Vec<Check>) {
     }
 }
 
+
+/// (f') assignments made in one iteration must not come back in a later one (also not after a
+/// different name is assigned there), and include chains of depth 2 and 3 resolve names through
+/// EVERY includer, nearest first
+fn oracle_scoping_deep(out: &mut Vec<Check>) {
+    // ---- stale loop-local assignments
+    for (in_ctx, in_global) in [(false, false), (true, false), (false, true), (true, true)] {
+        let mut ctx = vec![("xs".to_string(), Value::from(vec![Value::from(1), Value::from(2), Value::from(3)]))];
+        let mut global = vec![];
+        if in_ctx {
+            ctx.push(("a".into(), Value::from("ctx")));
+        }
+        if in_global {
+            global.push(("a".into(), Value::from("glob")));
+        }
+        let outer = if in_ctx { "ctx" } else if in_global { "glob" } else { "~" };
+        let def = in_ctx || in_global;
+        let mk = |src: &str| simple_case("oracle.scoping_deep", src, ctx.clone(), global.clone());
+        let rd = "{{ a is defined }}:{{ a | default(value=\"~\") }}";
+        // iteration 1 sets a; iteration 2 sets b and then reads a; iteration 3 reads a without setting anything
+        out.push(Check {
+            oracle: "scope.no_stale_loop_assignment",
+            case: mk(&format!("{{% for i in xs %}}{{% if i == 1 %}}{{% set a = \"stale\" %}}[{rd}]{{% endif %}}{{% if i == 2 %}}{{% set b = 1 %}}[{rd}]{{% endif %}}{{% if i == 3 %}}[{rd}]{{% endif %}}{{% endfor %}}[{rd}]")),
+            expect: Expect::Text(format!("[true:stale][{def}:{outer}][{def}:{outer}][{def}:{outer}]")),
+        });
+        // several names, each set in its own iteration, all read in every iteration after another set
+        out.push(Check {
+            oracle: "scope.no_stale_loop_assignment",
+            case: mk("{% for i in xs %}{% if i == 1 %}{% set a = \"A\" %}{% set c = \"C\" %}{% endif %}{% if i == 2 %}{% set b = \"B\" %}{% endif %}{% set z = i %}({{ a | default(value=\"~\") }}{{ b | default(value=\"~\") }}{{ c | default(value=\"~\") }}{{ z }}){% endfor %}"),
+            expect: Expect::Text(format!("(A~C1)({outer}B~2)({outer}~~3)")),
+        });
+        // a set block and an assignment of the loop variable itself do not revive anything either
+        out.push(Check {
+            oracle: "scope.no_stale_loop_assignment",
+            case: mk("{% for i in xs %}{% if i == 1 %}{% set a = \"stale\" %}{% set i = \"I\" %}{% endif %}{% if i == 2 %}{% set b %}x{% endset %}({{ a | default(value=\"~\") }}{{ i }}){% endif %}{% if i == 3 %}{% set_global g2 = 1 %}({{ a | default(value=\"~\") }}{{ b | default(value=\"~\") }}{{ i }}){% endif %}{% endfor %}"),
+            expect: Expect::Text(format!("({outer}2)({outer}~3)")),
+        });
+        // nested loops: the inner loop's assignments die with each inner iteration and with the inner loop;
+        // the outer loop's own assignment stays visible for the rest of the OUTER iteration
+        out.push(Check {
+            oracle: "scope.no_stale_loop_assignment",
+            case: mk("{% for i in xs %}{% if i == 2 %}{% set o = \"O\" %}{% endif %}{% for j in xs %}{% if j == 1 %}{% set a = \"in\" %}{% endif %}{% if j == 2 %}{% set b = 1 %}<{{ a | default(value=\"~\") }}{{ o | default(value=\"~\") }}>{% endif %}{% endfor %}{% set q = 1 %}({{ a | default(value=\"~\") }}{{ b | default(value=\"~\") }}){% endfor %}"),
+            expect: Expect::Text(format!("<{outer}~>({outer}~)<{outer}O>({outer}~)<{outer}~>({outer}~)")),
+        });
+        // set_global made in one iteration IS visible later, a later local set of another name changes nothing
+        out.push(Check {
+            oracle: "scope.no_stale_loop_assignment",
+            case: mk("{% for i in xs %}{% if i == 1 %}{% set_global a = \"G1\" %}{% set l = \"L\" %}{% endif %}{% if i == 2 %}{% set b = 1 %}{% endif %}({{ a | default(value=\"~\") }}{{ l | default(value=\"~\") }}){% endfor %}({{ a }})"),
+            expect: Expect::Text("(G1L)(G1~)(G1~)(G1)".into()),
+        });
+        // the same inside an included template run in a loop, and in a loop inside an include
+        let inc_case = |main: &str, inc: &str| Case { templates: vec![("main".into(), tpl(main)), ("inc".into(), tpl(inc))], ctx: ctx.clone(), global: global.clone(), stream: "oracle.scoping_deep".into() };
+        out.push(Check {
+            oracle: "scope.no_stale_loop_assignment",
+            case: inc_case("{% include \"inc\" %}", "{% for i in xs %}{% if i == 1 %}{% set a = \"stale\" %}{% endif %}{% if i == 3 %}{% set b = 1 %}({{ a | default(value=\"~\") }}){% endif %}{% endfor %}"),
+            expect: Expect::Text(format!("({outer})")),
+        });
+    }
+    // ---- include chains: A includes B includes C (includes D); bindings at every level
+    let rd = |n: &str| format!("{{{{ {n} | default(value=\"~\") }}}}");
+    let chain = |a: &str, b2: &str, c: &str, d: &str, ctx: Vec<(String, Value)>, global: Vec<(String, Value)>| Case {
+        templates: vec![("main".into(), tpl(a)), ("b".into(), tpl(b2)), ("c".into(), tpl(c)), ("d".into(), tpl(d))],
+        ctx,
+        global,
+        stream: "oracle.scoping_deep".into(),
+    };
+    let probe = format!("[{}|{}|{}|{}|{}|{}]", rd("r"), rd("m"), rd("both"), rd("lv"), rd("cx"), rd("gl"));
+    let ctx = vec![("cx".to_string(), Value::from("CX")), ("both".to_string(), Value::from("ctx-both")), ("xs".to_string(), Value::from(vec![Value::from(1), Value::from(2)]))];
+    let global = vec![("gl".to_string(), Value::from("GL")), ("m".to_string(), Value::from("glob-m"))];
+    // depth 2: C reads; r bound in the root only, m in the middle only, both in both (the nearer wins), lv = the middle's loop variable
+    for (mid_bind, name) in [
+        ("{% set m = \"M\" %}{% set both = \"mid\" %}", "set"),
+        ("{% set_global m = \"M\" %}{% set_global both = \"mid\" %}", "set_global"),
+        ("{% set m %}M{% endset %}{% set both %}mid{% endset %}", "set_block"),
+    ] {
+        let _ = name;
+        out.push(Check {
+            oracle: "scope.include_chain",
+            case: chain(
+                "{% set r = \"R\" %}{% set both = \"root\" %}{% include \"b\" %}",
+                &format!("{mid_bind}{{% for lv in xs %}}{{% include \"c\" %}}{{% endfor %}}"),
+                &probe,
+                "",
+                ctx.clone(),
+                global.clone(),
+            ),
+            expect: Expect::Text("[R|M|mid|1|CX|GL][R|M|mid|2|CX|GL]".into()),
+        });
+        // depth 3: D reads through C (which binds nothing), then through B, then the root
+        out.push(Check {
+            oracle: "scope.include_chain",
+            case: chain(
+                "{% set r = \"R\" %}{% set both = \"root\" %}{% for lv in [9] %}{% include \"b\" %}{% endfor %}",
+                &format!("{mid_bind}{{% include \"c\" %}}"),
+                "{% set own = 1 %}{% include \"d\" %}",
+                &probe,
+                ctx.clone(),
+                global.clone(),
+            ),
+            expect: Expect::Text("[R|M|mid|9|CX|GL]".into()),
+        });
+    }
+    // the middle template binds nothing: root bindings and the root's loop variable are seen at depth 2 and 3
+    out.push(Check {
+        oracle: "scope.include_chain",
+        case: chain("{% set r = \"R\" %}{% for lv in xs %}{% include \"b\" %}{% endfor %}", "<{% include \"c\" %}>", &format!("{probe}{{% include \"d\" %}}"), &probe, ctx.clone(), global.clone()),
+        expect: Expect::Text("<[R|glob-m|ctx-both|1|CX|GL][R|glob-m|ctx-both|1|CX|GL]><[R|glob-m|ctx-both|2|CX|GL][R|glob-m|ctx-both|2|CX|GL]>".into()),
+    });
+    // the middle template shadows the root's loop variable with its own loop; the leaf's assignments reach nobody
+    out.push(Check {
+        oracle: "scope.include_chain",
+        case: chain(
+            "{% for lv in [\"root\"] %}{% include \"b\" %}({{ lv }}{{ leaf | default(value=\"~\") }}){% endfor %}",
+            "{% for lv in [\"mid\"] %}{% include \"c\" %}{% endfor %}<{{ lv }}{{ leaf | default(value=\"~\") }}>",
+            "{% set leaf = \"L\" %}{% set_global leaf2 = 1 %}{{ lv }}{{ leaf }}",
+            "",
+            ctx.clone(),
+            global.clone(),
+        ),
+        expect: Expect::Text("midL<root~>(root~)".into()),
+    });
+    // bound in the middle template only, read at depth 2 inside a capture and a filter section of the leaf
+    out.push(Check {
+        oracle: "scope.include_chain",
+        case: chain("{% include \"b\" %}", "{% set m = \"M\" %}{% set c2 %}{% include \"c\" %}{% endset %}{{ c2 }}", "{% filter upper %}{{ m }}x{% endfilter %}{% set k %}{{ m }}{% endset %}{{ k }}", "", ctx.clone(), global.clone()),
+        expect: Expect::Text("MXM".into()),
+    });
+}
+
 /// replace every include by the statements of the included template
 fn inline_includes(ss: &[St], templates: &[(String, Vec<St>)]) -> Vec<St> {
     let mut out = Vec::new();
@@ -2452,6 +2581,7 @@ pub fn run(prop: &str) {
         for _ in 0..env.budget(1, 6) {
             oracle_scoping(&mut rng, &mut fixed);
         }
+        oracle_scoping_deep(&mut fixed);
     }
     oracle_type_errors(&mut fixed);
     for _ in 0..env.budget(1, 4) {
